@@ -612,7 +612,7 @@ def c18(run, vc):
     _interop_trace(run, vc, evs, "c18_golden", "golden corpus of the pinned release consumed by the current tree")
     # (b) library <-> independent implementation, both directions, for the library's own constructions
     for module, cfg, keep, label in (
-        ("MC_SignCrypt", "MC_SignCrypt_%s.cfg" % tier, lambda v: v["act"] == "Seal" or (v["act"] in ("IsValid", "Decrypt") and not v["touched"]), "signcryption seal/open in both directions"),
+        ("MC_SignCrypt", "MC_SignCrypt_%s.cfg" % tier, lambda v: v["act"] == "Seal" or (v["act"] == "IsValid" and not v["touched"]) or (v["act"] == "Decrypt" and not v["touched"] and v["rightkey"]), "signcryption seal/open in both directions (openings with the matching key; wrong-key openings belong to C11 / C12, where finding D11 is tracked)"),
         ("MC_TimeLock", "MC_TimeLock_%s.cfg" % tier, lambda v: v["act"] == "TLSeal" or (v["act"] == "TLDecrypt" and not v["touched"] and v["rightsig"]), "time-lock seal/open in both directions"),
         ("MC_ElGamal", "MC_ElGamal_%s.cfg" % tier, lambda v: v["act"] in ("EGEncrypt", "EGDecrypt") or (v["act"] == "EGVerify" and not v["touched"]), "ElGamal transcript: library-made proofs verified by the reference and reference-made proofs by the library"),
         ("MC_Pok", "MC_Pok_%s.cfg" % tier, lambda v: v["pert"] == "none" and v.get("y") != "zero" and v["scheme"] != "Aug", "proof-of-knowledge equation and timestamp challenge derivation (Basic / PoP; the MessageAugmentation incompleteness is C10's recorded finding D6)"),
@@ -776,6 +776,8 @@ def c05(run, vc):
     ok = _multi_stage(run, vc, tables, [
         ("MC_SigNet", "MC_SigNet_single_%s.cfg" % tier, cross_sig, "a signature made under one scheme presented under another (all ordered pairs), incl. sums with signatures of other schemes"),
         ("MC_SigNet", "MC_SigNet_pop_%s.cfg" % tier, lambda v: (v["act"] == "Verify") or (v["act"] == "PopVerify" and any(o["op"] == "AsPop" for o in v["proof"]["ops"])), "a signature over the public-key bytes presented as a proof of possession and a proof of possession presented as a signature, every scheme"),
+        ("MC_SigNet", "MC_SigNet_agg_%s.cfg" % tier, lambda v: v["act"] == "Aggregate" and len({x["base"]["scheme"] for x in v["sigs"]}) > 1, "signatures of different schemes never aggregate (every scheme list up to the bound)"),
+        ("MC_SigNet", "MC_SigNet_multi_%s.cfg" % tier, lambda v: v["act"] == "Accumulate" and len({x["base"]["scheme"] for x in v["sigs"]}) > 1, "signatures of different schemes never accumulate into a multi-signature"),
         ("MC_Pok", "MC_Pok_%s.cfg" % tier, lambda v: v["pert"] in ("label", "pop_as_sig", "cross_forge") or (v["pert"] == "none" and v["scheme"] != "Aug" and v["act"] in ("Pok", "PokTs")), "a proof of knowledge relabelled to another scheme; a timestamp proof for another scheme forged from a challenge obtained for another commitment; a proof of possession presented as a signature inside a proof of knowledge; honest proofs of the Basic and PoP schemes (the tag the prover and the verifier use is the scheme's; the MessageAugmentation proof is finding D6 under C10)"),
         ("MC_SignCrypt", "MC_SignCrypt_%s.cfg" % tier, lambda v: v["act"] in ("IsValid", "Decrypt") and any(o["op"] == "Relabel" for o in v["ct"]["ops"]), "a signcryption ciphertext relabelled to each other scheme"),
         ("MC_Codec", "MC_Codec_%s.cfg" % tier, lambda v: v["act"] == "Codec" and v["mut"]["kind"] == "tag" and v["mut"]["field"] in ("variant", "scheme"), "an encoding whose scheme tag is rewritten decodes (if at all) to a value that is not equal to the original: the label is part of the value"),
